@@ -2,6 +2,7 @@
 mod exec;
 mod filter;
 mod model;
+mod tablecase;
 
 use exec::Session;
 use model::{BlobCfg, Concretise, Phys};
@@ -13,7 +14,7 @@ use std::sync::{Arc, LazyLock, Mutex};
 pub static LAST_CHOICE: LazyLock<Arc<Mutex<Option<Vec<u64>>>>> =
     LazyLock::new(|| Arc::new(Mutex::new(None)));
 
-fn arg(args: &[String], name: &str) -> Option<String> {
+pub fn arg(args: &[String], name: &str) -> Option<String> {
     args.iter()
         .position(|a| a == name)
         .and_then(|i| args.get(i + 1).cloned())
@@ -188,6 +189,7 @@ fn main() {
     let args: Vec<String> = std::env::args().collect();
     let code = match args.get(1).map(String::as_str) {
         Some("replay") => replay(&args[2..]),
+        Some("tablecase") => tablecase::run(&args[2..]),
         _ => {
             eprintln!("usage: harness replay --in F --out F [...]");
             2
